@@ -108,6 +108,29 @@ def bool_edges(fn, terms, cond_pred, want_true):
     return out
 
 
+def int_eq_edges(fn, terms, is_val, n):
+    """edges under which the integer value recognised by is_val equals the constant n, however the test is written:
+    `v == n` true edge, `v != n` false edge, or the `n` arm of a `match v`"""
+    isv = lambda t: is_val(t) or is_val(M.noref(t))
+    def cmp_(op):
+        return lambda c: c[0] == "bin" and c[1] == op and ((const_of(c[3]) == n and isv(c[2])) or (const_of(c[2]) == n and isv(c[3])))
+    out = bool_edges(fn, terms, cmp_("Eq"), True) + bool_edges(fn, terms, cmp_("Ne"), False)
+    for bb in sorted(fn.live_blocks()):
+        t = fn.blocks[bb]["term"]
+        if t["k"] != "switch" or t.get("dty") == "bool":
+            continue
+        r = M.switch_operand_def(fn, bb)
+        if r is not None and r["k"] == "discr":
+            continue
+        term = terms.rvalue(r) if r is not None else terms.operand(t["d"])
+        if not isv(term):
+            continue
+        tg = [b for v, b in t["targets"] if v == n]
+        if len(tg) == 1 and tg[0] != t.get("otherwise") and sum(1 for _, b in t["targets"] if b == tg[0]) == 1:
+            out.append((bb, tg[0]))
+    return out
+
+
 def stores_to_field(fn, field, owner=None):
     """(bb, stmt index, stmt) of every MIR store whose destination place ends in `.field`
     (of ADT `owner` if given) or passes through it"""
@@ -410,11 +433,11 @@ def callers_of(prog, path):
 # ----------------------------------------------------------------------------
 
 
-def effects(fn, assume=None, tracked=(), tries="ok"):
+def effects(fn, assume=None, tracked=(), tries="ok", assume_fn=None):
     """explore fn under `assume` and return (explore, terms, stores) where stores is the list of
     (slot, value term, bb) for every store whose destination goes through a reference
     parameter or into a field of `self`; terms are evaluated over the explored blocks only"""
-    ex = M.Explore(fn, assume=assume or {}, tracked=tracked, tries=tries)
+    ex = M.Explore(fn, assume=assume or {}, tracked=tracked, tries=tries, assume_fn=assume_fn)
     T = M.Terms(fn, blocks=ex.blocks)
     stores = []
     for bb in sorted(ex.blocks):
